@@ -428,6 +428,16 @@ def peek (l : List Nat) (k : Nat) : Except Err Nat :=
   | some x => .ok x
   | none => .error .mem
 
+/-- `theChar == ']' && guard && ']' == chars[i+1] && '>' == chars[i+2]` (short-circuit, as written) -/
+def closeTest (cfg : CDataCfg) (length : Nat) (c : Nat) (rest : List Nat) (i : Nat) : Except Err Bool :=
+  if c = 93 ∧ cfg.guard i length = true then do
+    let c1 ← peek rest 0
+    if c1 = 93 then do
+      let c2 ← peek rest 1
+      pure (decide (c2 = 62))
+    else pure false
+  else pure false
+
 /-- the loop of `writeCDATAChars(chars, length, outsideCDATA)`.  `l` is the supplied array from index `i`
 on (it may extend past `length`: the tail is what an unguarded look-ahead can see); `skip` units were
 already consumed by the previous iteration (`i += 2` / the low surrogate). -/
@@ -438,14 +448,7 @@ def cdataLoop (cfg : CDataCfg) (ver : Ver) (e : Enc) (length : Nat) :
   | c :: rest, i, 0, outside =>
     if i < length then do
       -- theChar == ']' && guard && ']' == chars[i+1] && '>' == chars[i+2]   (short-circuit, as written)
-      let isClose ←
-        if c = 93 ∧ cfg.guard i length = true then do
-          let c1 ← peek rest 0
-          if c1 = 93 then do
-            let c2 ← peek rest 1
-            pure (decide (c2 = 62))
-          else pure false
-        else pure false
+      let isClose ← closeTest cfg length c rest i
       if isClose then do
         let pre := if outside then wConst e (if cfg.bracketOutsideWritesOpen then cdataOpen e else cdataClose e) else []
         let (b, o) ← cdataLoop cfg ver e length rest (i + 1) 2 false
@@ -493,6 +496,10 @@ structure Cfg where
   enc : Enc
   cdata : CDataCfg
   encName : List Nat          -- the encoding name written into the XML declaration
+  xmlDecl : Bool              -- !omit-xml-declaration
+  standalone : List Nat       -- the standalone string ("" = none)
+  doctypeSystem : List Nat
+  doctypePublic : List Nat
 
 def verString : Ver → List Nat
   | .v10 => [49, 46, 48]
@@ -502,11 +509,40 @@ def hdrStart (e : Enc) : List Nat := match e.kind with | .utf8 => UTF8_s_xmlHead
 def hdrEnc (e : Enc) : List Nat := match e.kind with | .utf8 => UTF8_s_xmlHeaderEncodingString | _ => UTF16_s_xmlHeaderEncodingString
 def hdrEnd (e : Enc) : List Nat := match e.kind with | .utf8 => UTF8_s_xmlHeaderEndString | _ => UTF16_s_xmlHeaderEndString
 
-/-- `startDocument` → `writeXMLHeader` (xmlDecl = true, no standalone, no doctype) -/
-def writeXMLHeader (c : Cfg) : Out := do
-  let v ← wStr c.enc (verString c.ver)
-  let n ← wStr c.enc c.encName
-  pure (wConst c.enc (hdrStart c.enc) ++ v ++ wConst c.enc (hdrEnc c.enc) ++ n ++ wConst c.enc (hdrEnd c.enc))
+def hdrStandalone (e : Enc) : List Nat := match e.kind with | .utf8 => UTF8_s_xmlHeaderStandaloneString | _ => UTF16_s_xmlHeaderStandaloneString
+def dtStart (e : Enc) : List Nat := match e.kind with | .utf8 => UTF8_s_doctypeHeaderStartString | _ => UTF16_s_doctypeHeaderStartString
+def dtPublic (e : Enc) : List Nat := match e.kind with | .utf8 => UTF8_s_doctypeHeaderPublicString | _ => UTF16_s_doctypeHeaderPublicString
+def dtSystem (e : Enc) : List Nat := match e.kind with | .utf8 => UTF8_s_doctypeHeaderSystemString | _ => UTF16_s_doctypeHeaderSystemString
+
+/-- `m_shouldWriteXMLHeader`: the declaration is written when asked for, or when standalone is given -/
+def shouldWriteHeader (c : Cfg) : Bool := c.xmlDecl || !c.standalone.isEmpty
+
+/-- `m_spaceBeforeClose`: the public identifier starts with the W3C XHTML DTD prefix (`s_xhtmlDocTypeString`) -/
+def spaceBeforeClose (c : Cfg) : Bool :=
+  !c.doctypePublic.isEmpty && UTF16_s_xhtmlDocTypeString.isPrefixOf c.doctypePublic
+
+/-- `startDocument`: `writeXMLHeader` when the declaration is wanted, then a line break when a DOCTYPE will follow -/
+def writeXMLHeader (c : Cfg) : Out :=
+  if shouldWriteHeader c then do
+    let v ← wStr c.enc (verString c.ver)
+    let n ← wStr c.enc c.encName
+    let sa ← if c.standalone.isEmpty then pure [] else do
+      let s ← wStr c.enc c.standalone
+      pure (wConst c.enc (hdrStandalone c.enc) ++ s)
+    let nl ← if c.doctypeSystem.isEmpty then pure [] else wNewline c.enc
+    pure (wConst c.enc (hdrStart c.enc) ++ v ++ wConst c.enc (hdrEnc c.enc) ++ n ++ sa ++ wConst c.enc (hdrEnd c.enc) ++ nl)
+  else pure []
+
+/-- `generateDoctypeDecl(name)` / `writeDoctypeDecl(name)` at the first start tag (only with a system identifier) -/
+def doctypeItems (c : Cfg) (name : List Nat) : Out :=
+  if c.doctypeSystem.isEmpty then pure [] else do
+    let n ← wStr c.enc name
+    let pub ← if c.doctypePublic.isEmpty then pure (wConst c.enc (dtSystem c.enc)) else do
+      let p ← wName c.enc c.doctypePublic
+      pure (wConst c.enc (dtPublic c.enc) ++ p ++ wChar c.enc 34 ++ wChar c.enc 32 ++ wChar c.enc 34)
+    let sys ← wName c.enc c.doctypeSystem
+    let nl ← wNewline c.enc
+    pure (wConst c.enc (dtStart c.enc) ++ n ++ pub ++ sys ++ wChar c.enc 34 ++ wChar c.enc 62 ++ nl)
 
 /-- `writeParentTagEnd` / `markParentForChildren` on `m_elemStack` (top of stack = head) -/
 def parentTagEnd (e : Enc) : List Bool → List Item × List Bool
@@ -535,8 +571,8 @@ def stepEvent (c : Cfg) (st : List Bool) : Event → Except Err (List Item × Li
     | true :: st1 => do
       let n ← wName c.enc name
       pure (wChar c.enc 60 ++ wChar c.enc 47 ++ n ++ wChar c.enc 62, st1)
-    | false :: st1 => pure (wChar c.enc 47 ++ wChar c.enc 62, st1)
-    | [] => pure (wChar c.enc 47 ++ wChar c.enc 62, [])
+    | false :: st1 => pure ((if spaceBeforeClose c then wChar c.enc 32 else []) ++ wChar c.enc 47 ++ wChar c.enc 62, st1)
+    | [] => pure ((if spaceBeforeClose c then wChar c.enc 32 else []) ++ wChar c.enc 47 ++ wChar c.enc 62, [])
   | .characters buf length =>
     if length = 0 then pure ([], st) else do
       let (p, st1) := parentTagEnd c.enc st
@@ -572,10 +608,23 @@ def runEvents (c : Cfg) : List Event → List Bool → Out
     let b ← runEvents c rest st1
     pure (a ++ b)
 
+/-- the events up to the first `startElement` (top level: nothing is open, `writeParentTagEnd` does nothing), then
+the DOCTYPE declaration that `startElement` generates before anything else, then the rest -/
+def runEventsD (c : Cfg) : List Event → Out
+  | [] => .ok []
+  | .startElement name attrs :: rest => do
+    let d ← doctypeItems c name
+    let r ← runEvents c (.startElement name attrs :: rest) []
+    pure (d ++ r)
+  | ev :: rest => do
+    let (a, _) ← stepEvent c [] ev
+    let b ← runEventsD c rest
+    pure (a ++ b)
+
 /-- startDocument … events … endDocument: all items written -/
 def serializeItems (c : Cfg) (evs : List Event) : Out := do
   let h ← writeXMLHeader c
-  let b ← runEvents c evs []
+  let b ← runEventsD c evs
   pure (h ++ b)
 
 def bufferSize : WK → Nat
